@@ -735,7 +735,8 @@ def parse_template(text):
                     mm = re.match(r"(\S+)\s+`(.*)`\s*=>\s*`(.*)`$", rest)
                     if not mm:
                         raise TemplateError(f"bad replace: {rest}")
-                    fu.replaces.append(mm.groups() + (key == "replaceall",))
+                    g = mm.groups()
+                    fu.replaces.append((g[0], g[1].replace("\\n", "\n"), g[2].replace("\\n", "\n"), key == "replaceall"))   # `\n` stands for a line break
                 elif key == "splitarm":
                     mm = re.match(r"(?:#(\d+)\s+)?`(.*)`$", rest)
                     if not mm:
